@@ -2,25 +2,48 @@ module verifharness
 
 go 1.23
 
-require gopkg.in/src-d/hercules.v10 v10.0.0
+require (
+	gopkg.in/src-d/go-git.v4 v4.10.0
+	gopkg.in/src-d/hercules.v10 v10.0.0
+)
 
 require (
+	github.com/BurntSushi/toml v0.3.1 // indirect
+	github.com/Jeffail/tunny v0.0.0-20180304204616-59cfa8fcb19f // indirect
+	github.com/antchfx/xpath v0.0.0-20180922041825-3de91f3991a1 // indirect
 	github.com/emirpasic/gods v1.9.0 // indirect
 	github.com/gogo/protobuf v1.3.0 // indirect
+	github.com/golang/protobuf v1.2.0 // indirect
+	github.com/grpc-ecosystem/grpc-opentracing v0.0.0-20180507213350-8e809c8a8645 // indirect
 	github.com/jbenet/go-context v0.0.0-20150711004518-d14ea06fba99 // indirect
 	github.com/kevinburke/ssh_config v0.0.0-20180830205328-81db2a75821e // indirect
+	github.com/mcuadros/go-lookup v0.0.0-20171110082742-5650f26be767 // indirect
+	github.com/minio/highwayhash v0.0.0-20180501080913-85fc8a2dacad // indirect
 	github.com/mitchellh/go-homedir v1.0.0 // indirect
+	github.com/opentracing/opentracing-go v1.0.2 // indirect
 	github.com/pelletier/go-buffruneio v0.2.0 // indirect
 	github.com/pkg/errors v0.8.0 // indirect
 	github.com/sergi/go-diff v1.0.0 // indirect
+	github.com/smacker/go-tree-sitter v0.0.0-20191127230340-5368dabef05e // indirect
 	github.com/spf13/cobra v0.0.3 // indirect
 	github.com/spf13/pflag v1.0.3 // indirect
+	github.com/src-d/enry/v2 v2.1.0 // indirect
 	github.com/src-d/gcfg v1.4.0 // indirect
+	github.com/src-d/imports v0.0.0-20191128152346-bf22b73550b0 // indirect
+	github.com/toqueteos/trie v1.0.0 // indirect
 	github.com/xanzy/ssh-agent v0.2.0 // indirect
 	golang.org/x/crypto v0.0.0-20180904163835-0709b304e793 // indirect
 	golang.org/x/net v0.0.0-20180906233101-161cd47e91fd // indirect
+	golang.org/x/sys v0.0.0-20190222072716-a9d3bda3a223 // indirect
+	golang.org/x/text v0.3.0 // indirect
+	google.golang.org/genproto v0.0.0-20180817151627-c66870c02cf8 // indirect
+	google.golang.org/grpc v1.16.0 // indirect
+	gopkg.in/bblfsh/client-go.v3 v3.2.0 // indirect
+	gopkg.in/bblfsh/sdk.v1 v1.17.0 // indirect
+	gopkg.in/bblfsh/sdk.v2 v2.14.1 // indirect
 	gopkg.in/src-d/go-billy.v4 v4.2.1 // indirect
-	gopkg.in/src-d/go-git.v4 v4.10.0 // indirect
+	gopkg.in/src-d/go-errors.v1 v1.0.0 // indirect
+	gopkg.in/toqueteos/substring.v1 v1.0.2 // indirect
 	gopkg.in/warnings.v0 v0.1.2 // indirect
 )
 
